@@ -463,8 +463,11 @@ def check(pid, tier, only=None, keep=False, jobs=None, list_only=False):
                 violations.append((rec['query'], 'build', rp))
             else: problems.append('BUILD-ERROR query=%s %s' % (rec['query'], err[-800:].replace('\n', ' | ')))
             continue
-        if rec.get('witness') != 'reachable' and not q.bughunt:
+        if rec.get('witness') in ('UNREACHABLE', 'error') and not q.bughunt:
             problems.append('VACUOUS query=%s witness=%s' % (rec['query'], rec.get('witness')))
+        elif rec.get('witness') != 'reachable' and not q.bughunt and rec['verdict'] == 'success':
+            # no verdict for the witness twin: the query's own verdict is not counted as covered
+            rec['verdict'] = 'inconclusive'; rec['note_witness'] = 'witness twin had no verdict within the cap'
         if rec['verdict'] == 'inconclusive':
             problems_soft = 'INCONCLUSIVE query=%s (no verdict within cap; not counted as covered)' % rec['query']
             print(problems_soft)
